@@ -176,8 +176,12 @@ class ParallelTemperedSampler(BaseSampler):
                         ntemps=self.ntemps)
         out.extend(self.nchains)
         for ii, chain in enumerate(self.chains):
-            out[ii] = getattr(chain, attr)
-        return array2dict(out.data.T)
+            d = getattr(chain, attr)
+            if self.ntemps == 1:
+                # the scratch space has no temperature axis in this case
+                d = {p: val[0] for p, val in d.items()}
+            out[ii] = d
+        return array2dict(out.data.reshape(self.nchains, self.ntemps).T)
 
     def _concatenate_arrays(self, attr, item=None):
         """Concatenates the given attribute over all of the chains.
